@@ -66,6 +66,41 @@ type recStores struct {
 	rounds map[hr]struct{}
 	// every header ever saved per height, to see overwrites even if later reverted
 	hdrSaves map[uint64][]string
+	// every vote collection ever written to the round store (at is the length of log right after the write), so that a
+	// later write that drops persisted signatures is seen at the next restart (C10 PersistedVotesReloaded)
+	voteWrites []voteWrite
+}
+
+type voteWrite struct {
+	at   int
+	h    uint64
+	r    uint32
+	kind string
+	ssc  tmconsensus.SparseSignatureCollection
+}
+
+// everVotes: the union of all signatures that were ever durably written for (h, r, kind), per block hash.
+func (r *recStores) everVotes(h uint64, rd uint32, kind string) map[string][]gcrypto.SparseSignature {
+	r.mu.Lock()
+	defer r.mu.Unlock()
+	out := map[string][]gcrypto.SparseSignature{}
+	seen := map[string]struct{}{}
+	for _, w := range r.voteWrites {
+		if w.h != h || w.r != rd || w.kind != kind {
+			continue
+		}
+		for hash, sigs := range w.ssc.BlockSignatures {
+			for _, sg := range sigs {
+				key := hash + "|" + string(sg.KeyID) + "|" + string(sg.Sig)
+				if _, ok := seen[key]; ok {
+					continue
+				}
+				seen[key] = struct{}{}
+				out[hash] = append(out[hash], sg)
+			}
+		}
+	}
+	return out
 }
 
 func newRecStores(h tmconsensus.HashScheme) *recStores {
@@ -107,6 +142,11 @@ func (r *recStores) rebuild(h tmconsensus.HashScheme, n int) *recStores {
 	out.points = append(out.points, r.points[:n]...)
 	for k := range r.rounds {
 		out.rounds[k] = struct{}{}
+	}
+	for _, w := range r.voteWrites {
+		if w.at <= upto {
+			out.voteWrites = append(out.voteWrites, w)
+		}
 	}
 	return out
 }
@@ -199,6 +239,7 @@ func (s recRoundStore) OverwriteRoundPrevoteProofs(ctx context.Context, h uint64
 	if err == nil {
 		s.r.rounds[hr{h, r}] = struct{}{}
 		s.r.record(func(m *memStores) { _ = m.rs.OverwriteRoundPrevoteProofs(context.Background(), h, r, cloneSSC(pc)) }, true)
+		s.r.voteWrites = append(s.r.voteWrites, voteWrite{at: len(s.r.log), h: h, r: r, kind: "prevote", ssc: cloneSSC(pc)})
 	}
 	return err
 }
@@ -211,6 +252,7 @@ func (s recRoundStore) OverwriteRoundPrecommitProofs(ctx context.Context, h uint
 	if err == nil {
 		s.r.rounds[hr{h, r}] = struct{}{}
 		s.r.record(func(m *memStores) { _ = m.rs.OverwriteRoundPrecommitProofs(context.Background(), h, r, cloneSSC(pc)) }, true)
+		s.r.voteWrites = append(s.r.voteWrites, voteWrite{at: len(s.r.log), h: h, r: r, kind: "precommit", ssc: cloneSSC(pc)})
 	}
 	return err
 }
